@@ -14,6 +14,11 @@ THEOREMS = [
     "Mpc.C20_bytes32_panics_beyond",
     "Mpc.C20_pack32_roundtrip",
     "Mpc.C20_vole_empty",
+    "Mpc.C20_vole_step",
+    "Mpc.C20_vole_session",
+    "Mpc.C20_vole_session_every_call",
+    "Mpc.C20_vole_session_messages",
+    "Mpc.C20_fx_session",
     "Mpc.C20_toOT_fromOT",
     "Mpc.C20_fx_shares",
     "Mpc.C20_fx_general",
@@ -53,19 +58,28 @@ def run(ctx):
 
     quick = ctx.tier == "quick"
     if ctx.build_hx():
-        # vole: the first 45 cases are the grid lengths {1,2,511..513,1023..1025,2000} x the five fixed moduli
-        vole_plan = [(ctx.seed, 200)] if quick else [(ctx.seed, 400), (ctx.seed + 1000, 400), (ctx.seed + 2000, 400)]
+        # vole: every case is a HISTORY of 1..6 Mul calls on one Sender/Receiver pair; the first call of the first 45
+        # cases is the grid of lengths {1,2,511..513,1023..1025,2000} x the five fixed moduli
+        vole_plan = [(ctx.seed, 160)] if quick else [(ctx.seed, 400), (ctx.seed + 1000, 400), (ctx.seed + 2000, 400)]
         fx_plan = [(ctx.seed, 4000)] if quick else [(ctx.seed, 20000), (ctx.seed + 1000, 20000)]
+        fxs_plan = [(ctx.seed, 1500)] if quick else [(ctx.seed, 8000), (ctx.seed + 1000, 8000)]
         for s, n in vole_plan:
             ops, out, meta = ctx.run_hx("vole", n, seed=s, timeout=1500)
             ctx.absorb_meta(meta)
-            ctx.correspond("vole Sender.Mul/Receiver.Mul: r, u, y-message, u-message byte-exact (seed %d)" % s, ops, out)
+            ctx.correspond("vole histories of Mul calls on one pair: per call r, u, y-message, u-message byte-exact, "
+                           "row-stream position (seed %d)" % s, ops, out)
             for line in open(ops, errors="replace"):
                 ctx.distinct.add(hashlib.sha1(line.encode()).digest())
         for s, n in fx_plan:
             ops, out, meta = ctx.run_hx("fx", n, seed=s, timeout=1500)
             ctx.absorb_meta(meta)
             ctx.correspond("bmr Fx/Fxk/ToOT/FromOT: OT wire, received label, both shares (seed %d)" % s, ops, out)
+            for line in open(ops, errors="replace"):
+                ctx.distinct.add(hashlib.sha1(line.encode()).digest())
+        for s, n in fxs_plan:
+            ops, out, meta = ctx.run_hx("fxs", n, seed=s, timeout=1500)
+            ctx.absorb_meta(meta)
+            ctx.correspond("bmr histories of Fx/Fxk calls over one OT instance pair (seed %d)" % s, ops, out)
             for line in open(ops, errors="replace"):
                 ctx.distinct.add(hashlib.sha1(line.encode()).digest())
         if ctx.broken and not ctx.fails:
@@ -75,6 +89,8 @@ def run(ctx):
                 ctx.absorb_meta(meta, prefix="widen_")
                 ops, out, meta = ctx.run_hx("fx", 4000, seed=s, tag="-widen", timeout=1500)
                 ctx.absorb_meta(meta, prefix="widen_")
+                ops, out, meta = ctx.run_hx("fxs", 2000, seed=s, tag="-widen", timeout=1500)
+                ctx.absorb_meta(meta, prefix="widen_")
                 if ctx.fails:
                     break
         c = ctx.coverage.get("counters", {})
@@ -83,22 +99,40 @@ def run(ctx):
                    "seen %s" % combos)
         ctx.oblige("Fxk ran for b = 0 and b = 1, over ideal OT and over CO",
                    all(c.get(k, 0) > 0 for k in ("fxk_b0", "fxk_b1", "fxk_base_ideal", "fxk_base_co")), str(c))
+        hist = {k: c.get(k, 0) for k in (
+            "vole_next_same-length", "vole_next_not-longer", "vole_next_longer", "vole_next_empty", "vole_next_one",
+            "vole_next_modulus_smaller", "vole_next_fits_earlier_vector", "vole_next_slot_value_narrower")}
+        ctx.coverage["vole_history_shapes"] = hist
+        ctx.oblige("vole histories covered: later call same length / not longer / longer / empty, smaller modulus after a "
+                   "larger one, a value with fewer significant bytes in a vector slot used by an earlier call",
+                   all(v > 0 for v in hist.values()) and
+                   sum(c.get("vole_session_calls_%d" % k, 0) for k in range(2, 7)) >= 20, str(hist))
+        ctx.oblige("gadget histories: Fx and Fxk calls on an OT instance that already carried earlier calls, ideal OT and CO",
+                   all(c.get(k, 0) > 0 for k in ("fxs_calls_on_used_ot", "fxs_fx_calls", "fxs_fxk_calls",
+                                                 "fxs_base_ideal", "fxs_base_co")), str(c))
         grid = [k for k in c if k.startswith("vole_grid_")]
         ctx.coverage["vole_grid_points"] = len(grid)
         ctx.oblige("vole ran on the 9 x 5 grid of boundary lengths x fixed moduli", len(grid) == 45,
                    "seen %d: %s" % (len(grid), sorted(grid)))
     ctx.coverage["rule"] = (
-        "vole: grid of lengths {1,2,511,512,513,1023,1024,1025,2000} x moduli {P-256 prime, 3, 65537, 2^255-19, 2^256-189}, "
+        "vole: every case is one Sender/Receiver pair with a history of 1..6 Mul calls (one call on 1 case in 5; 2..4 on grid "
+        "cases); follow-up calls: same length / 1 / 1..longest-so-far / tiny / longer / EMPTY / random short, modulus same / "
+        "small {2,3,251,65537,2^61-1} (half of the follow-ups) / fixed / random, elements from {0,1,p-1,1..4-byte} on half of "
+        "the follow-ups (fewer significant bytes than what an earlier call packed in the same slot), relation checked after "
+        "every call. First calls: grid of lengths {1,2,511,512,513,1023,1024,1025,2000} x moduli {P-256 prime, 3, 65537, 2^255-19, 2^256-189}, "
         "then random lengths (biased to 1..90 in the quick tier, to multiples of 8/64/512 +-1 and 1..2000 otherwise) x "
         "fixed or random moduli (2, 2^k, 2^k-1, 2^256-1, random of 2..256 bits); per element a draw from {0, 1, p-1, p, "
         "2^256-1, random 256-bit, short byte strings, random below p}; ideal base OT on 3 of 4 cases, CO on the fourth; "
         "random / all-zero / all-one IKNP delta; seeded read fragmentation on half of the sessions. "
         "fx: enumerated (a, b, bit0(rl)) over ideal OT and (a, b) over CO first, then random a, b in {0,1}, random and "
         "special labels / strings, 20% operands outside {0,1} (correspondence only), ToOT/FromOT on random and special "
-        "values. distinct = distinct op lines (every op line carries all inputs incl. the recovered IKNP labels).")
+        "values. fxs: histories of 2..8 Fx/Fxk calls over one OT pair (ideal, CO initialised once). "
+        "distinct = distinct op lines (every op line carries all inputs incl. the recovered IKNP labels).")
     ctx.assumptions += [
-        "the correlated-OT extension enters Sender.Mul only through the label list it returns (a parameter of the model); that "
-        "IKNP returns m labels for every m, across chunk boundaries, is property C06",
+        "the correlated-OT extension enters Sender.Mul only through the label list it returns; in the history model the labels of "
+        "a call are rows pos..pos+m-1 of the extension's row stream (a parameter) and a call advances pos by m rounded up to 8 "
+        "(IKNP byte rows; validated by the correspondence on every history); that IKNP returns m labels for every m, across "
+        "chunk boundaries, is property C06",
         "OT under Fx/Fxk is a parameter satisfying OtSpec in the theorems (C06 proves it per implementation)",
         "field elements are non-negative big.Int (Nat in the model); y < 2^256 (beyond that bytes32 panics: "
         "C20_bytes32_panics_beyond); a negative y would be sent as |y| (outside the property's domain of field elements)",
@@ -109,11 +143,14 @@ def run(ctx):
         "bmr.NewLabel's randomness is supplied by replacing crypto/rand.Reader in the harness process",
     ]
     return ctx.finish(
-        "Theorems (Props/C20.lean): for every PRG, label list, m >= 1, 0 < p <= 2^256, x, y < 2^256 a vole session takes no "
+        "Theorems (Props/C20.lean): HISTORIES - for every PRG, row stream, start position and list of admissible Mul calls on one "
+        "pair no call errs, every call satisfies the share relation and its messages are pack32 of its own vectors, the state "
+        "between calls is the stream position only (C20_vole_session*); every history of in-domain Fx/Fxk calls over one OT "
+        "returns shares of each call's product (C20_fx_session). Single call: for every PRG, label list, m >= 1, 0 < p <= 2^256, x, y < 2^256 a vole session takes no "
         "error branch, lengths are preserved, r_i, u_i < p and u_i - r_i = x_i*y_i (mod p); bytes32 / packed-vector round "
         "trips and the exact panic condition; Fx shares XOR to a*b for bits (and to (a mod 2)*[b=1] for any uint), Fxk shares "
-        "XOR to [b=1]*s for every 32-bit s, FromOT(ToOT(l)) = l, for every OT satisfying OtSpec. Tie: real vole.Sender/"
-        "Receiver over a recording connection with the real IKNP over ideal or CO base OT: r, u and both messages equal the "
+        "XOR to [b=1]*s for every 32-bit s, FromOT(ToOT(l)) = l, for every OT satisfying OtSpec. Tie: histories of Mul calls on real vole.Sender/"
+        "Receiver pairs over a recording connection with the real IKNP over ideal or CO base OT: r, u and both messages equal the "
         "model's (Lean AES-CTR PRG) byte for byte; real bmr.Fx*/ToOT/FromOT: OT wire, received label and both shares equal "
         "the model. Facts: call order of both Mul functions, one OT call per gadget, k = 32. Oracle: the share relations "
         "evaluated with math/big resp. XOR on the real outputs.")
